@@ -197,6 +197,22 @@ Proof.
   rewrite init_holders. lia.
 Qed.
 
+(* after a successful return no task holds a permit (every node is idle or done) *)
+Lemma no_holders_at_success g c d0 tr st : accepts_h g c d0 tr = Some st -> returned st = Some true ->
+  holders g st = 0.
+Proof.
+  intros Ha Hr. apply accepts_h_accepts in Ha.
+  destruct (run_ret_true g c tr _ _ Ha eq_refl Hr) as [_ Hall].
+  unfold holders.
+  assert (E : forall l, (forall n, In n l -> n < g_n g) ->
+              filter (fun n => holds_ph g n (ph st n)) l = []).
+  { induction l as [|a l IH]; intro Hl; simpl; [reflexivity|].
+    specialize (Hall a (Hl a (or_introl eq_refl))).
+    unfold holds_ph. destruct (ph st a); simpl in Hall; try discriminate; simpl;
+      apply IH; intros n Hn; apply Hl; right; exact Hn. }
+  rewrite E; [reflexivity|]. intros n Hn. apply in_seq in Hn. lia.
+Qed.
+
 (* ------------------------------------------------------------------ witnesses *)
 
 (* K = 1, manifest 2 -> blobs 0, 1.  While the leaf 0 waits for its PreCopy it HOLDS the only permit,
